@@ -153,7 +153,11 @@ func vfC09(c *hx.Ctx) {
 // interleaving of 3 threads x 2 draws (preemption bound, with an extra scheduling point after every Unlock so that code
 // which touches the generator's state after releasing its lock is exposed) — all draws must be distinct, for both
 // generator implementations and for fillRand on the package-level source.
-func vfC09EntropyConcurrent(c *hx.Ctx) {
+func vfC09EntropyConcurrent(c *hx.Ctx) { vfEntropyConcurrent(c, "C09:entropy-repeats:concurrent-draws") }
+
+// vfEntropyConcurrent is shared by C09 (nonce freshness) and C14 (the generator state is shared mutable state: an access
+// outside its lock is a data race even where ThreadSanitizer cannot see it because the other access is in assembly).
+func vfEntropyConcurrent(c *hx.Ctx, dupSig string) {
 	for _, src := range []string{"aes", "chacha8", "default-via-fillRand"} {
 		src := src
 		run := func(e *explore.Exec) explore.Verdict {
@@ -191,17 +195,17 @@ func vfC09EntropyConcurrent(c *hx.Ctx) {
 			})
 			v := explore.Verdict{Outcome: out.Status.String(), NonTriv: e.Cost() > 0, Pruned: out.Status == vrt.Pruned}
 			if out.Status == vrt.Panicked {
-				v.Violation, v.Signature = out.Fail+"\n"+out.Stack, "C09:entropy-concurrent:panic"
+				v.Violation, v.Signature = out.Fail+"\n"+out.Stack, dupSig[:4]+"entropy-concurrent:panic"
 				return v
 			}
 			seen := map[[16]byte]bool{}
 			for _, d := range draws {
 				if seen[d] {
-					v.Violation, v.Signature = fmt.Sprintf("two concurrent draws from the %s source returned the same 16 bytes %x (of %d draws)", src, d, len(draws)), "C09:entropy-repeats:concurrent-draws"
+					v.Violation, v.Signature = fmt.Sprintf("two concurrent draws from the %s source returned the same 16 bytes %x (of %d draws): the generator state is read or written outside its lock", src, d, len(draws)), dupSig
 				}
 				seen[d] = true
 				if d == ([16]byte{}) {
-					v.Violation, v.Signature = fmt.Sprintf("a draw from the %s source returned all zero bytes", src), "C09:entropy-zero"
+					v.Violation, v.Signature = fmt.Sprintf("a draw from the %s source returned all zero bytes", src), dupSig[:4]+"entropy-zero"
 				}
 			}
 			return v
